@@ -205,6 +205,11 @@ Proof.
   destruct (setact_static i v e) as (_ & A & B). rewrite A, B. reflexivity.
 Qed.
 
+Definition hgt (l : list ent) (i : N) : Z := match cfind l i with Some e => e_h e | None => 0 end.
+Definition is_act (l : list ent) (i : N) : Prop := exists e, cfind l i = Some e /\ e_act e = true.
+Lemma find_cfind : forall s i b, find ccmd (blocks _ _ s) i = Some b -> cfind (cores s) i = Some (core b).
+Proof. intros s i b H. unfold cores. rewrite cfind_core, H. reflexivity. Qed.
+
 (** ** the block-level steps on the core list *)
 Lemma child_active_core : forall (l : list (blk ccmd)) i,
     child_active ccmd l i = false ->
@@ -260,14 +265,14 @@ Lemma unapply_core : forall s i s',
     wf s -> c_unapplyBlock s i = Ok s' ->
     wf s' /\ cores s' = cupd (cores s) i false /\ N.succ (napp _ _ s') = napp _ _ s /\
     root _ _ s' = root _ _ s /\ tip _ _ s' = tip _ _ s /\ i <> root _ _ s /\
-    exists e, cfind (cores s) i = Some e /\ e_act e = true.
+    exists e, cfind (cores s) i = Some e /\ e_act e = true /\ is_act (cores s) (e_par e).
 Proof.
   intros s i s' W H. unfold c_unapplyBlock, unapplyBlock in H.
   destruct (find ccmd (blocks pstate ccmd s) i) as [b|] eqn:Fi; [|discriminate].
   destruct (N.eqb i (root pstate ccmd s)) eqn:R; [discriminate|]. apply N.eqb_neq in R.
   destruct (negb (b_act ccmd b)) eqn:Ha; [discriminate|]. apply negb_false_iff in Ha.
-  destruct (find ccmd (blocks pstate ccmd s) (b_par ccmd b)) as [pb|]; [|discriminate].
-  destruct (negb (b_act ccmd pb)); [discriminate|].
+  destruct (find ccmd (blocks pstate ccmd s) (b_par ccmd b)) as [pb|] eqn:Fp; [|discriminate].
+  destruct (negb (b_act ccmd pb)) eqn:Pa; [discriminate|]. apply negb_false_iff in Pa.
   destruct (child_active ccmd (blocks pstate ccmd s) i) eqn:CA; [discriminate|].
   destruct (N.eqb (napp pstate ccmd s) 0) eqn:N0; [discriminate|]. apply N.eqb_neq in N0.
   inversion H; subst; clear H.
@@ -277,12 +282,11 @@ Proof.
   split; [|split; [exact C|split; [cbn; apply N.succ_pred; exact N0|split; [reflexivity|split; [reflexivity|split; [exact R|]]]]]].
   - unfold wf. rewrite C. cbn [root napp]. eapply wfc_off; [exact W|exact Fe|exact Ha|exact R|].
     apply child_active_core. exact CA.
-  - exists (core b). split; [exact Fe|exact Ha].
+  - exists (core b). split; [exact Fe|]. split; [exact Ha|].
+    exists (core pb). split; [apply find_cfind; exact Fp|exact Pa].
 Qed.
 
 (** ** heights and the applied counter along the walks *)
-Definition hgt (l : list ent) (i : N) : Z := match cfind l i with Some e => e_h e | None => 0 end.
-Definition is_act (l : list ent) (i : N) : Prop := exists e, cfind l i = Some e /\ e_act e = true.
 
 Lemma hgt_static : forall l l' j, same_static l l' -> hgt l' j = hgt l j.
 Proof.
@@ -298,8 +302,6 @@ Proof.
   unfold hgt. rewrite Hx, Hpe. exact Hh.
 Qed.
 
-Lemma find_cfind : forall s i b, find ccmd (blocks _ _ s) i = Some b -> cfind (cores s) i = Some (core b).
-Proof. intros s i b H. unfold cores. rewrite cfind_core, H. reflexivity. Qed.
 
 Record frame (s s' : cst) : Prop := mkFrame {
   fr_wf : wf s';
@@ -314,6 +316,13 @@ Proof.
   intros a b c [W1 S1 R1 T1] [W2 S2 R2 T2]. constructor; [exact W2|eapply same_static_trans; eassumption|congruence|congruence].
 Qed.
 
+Lemma is_act_cupd_other : forall l i v j, is_act l j -> (v = true \/ j <> i) -> is_act (cupd l i v) j.
+Proof.
+  intros l i v j (e & He & Ha) Hv. exists (setact i v e). rewrite cfind_cupd', He. split; [reflexivity|].
+  unfold setact. destruct (N.eqb (e_id e) i) eqn:E; [|exact Ha].
+  destruct Hv as [->|Hn]; [reflexivity|]. apply N.eqb_eq in E. apply cfind_some in He. destruct He. congruence.
+Qed.
+
 Ltac dbind H :=
   match type of H with
   | bind ?e _ = Ok _ => let E := fresh "E" in destruct e eqn:E; cbn [bind] in H; [|discriminate]
@@ -321,31 +330,35 @@ Ltac dbind H :=
 
 Lemma uw_arith : forall fuel s cur to pred s' w,
     wf s -> unapplyWhile pstate ccmd cunexec fuel s cur to pred = Ok (s', w) ->
-    frame s s' /\ Z.of_N (napp _ _ s) = Z.of_N (napp _ _ s') + (hgt (cores s) cur - hgt (cores s) w).
+    frame s s' /\ Z.of_N (napp _ _ s) = Z.of_N (napp _ _ s') + (hgt (cores s) cur - hgt (cores s) w) /\
+    (is_act (cores s) cur -> is_act (cores s') w).
 Proof.
   induction fuel as [|f IH]; intros s cur to pred s' w W H; cbn in H.
   - destruct (N.eqb cur to) eqn:E; [|discriminate]. inversion H; subst. apply N.eqb_eq in E. subst.
-    split; [apply frame_refl; exact W|lia].
+    split; [apply frame_refl; exact W|split; [lia|auto]].
   - destruct (N.eqb cur to) eqn:E.
-    { inversion H; subst. apply N.eqb_eq in E. subst. split; [apply frame_refl; exact W|lia]. }
+    { inversion H; subst. apply N.eqb_eq in E. subst. split; [apply frame_refl; exact W|split; [lia|auto]]. }
     destruct (find ccmd (blocks pstate ccmd s) cur) as [bc|] eqn:Fc; [|discriminate].
     destruct (find ccmd (blocks pstate ccmd s) to) as [bt|]; [|discriminate].
     destruct (Z.leb (b_h ccmd bc) (b_h ccmd bt)); [discriminate|].
     destruct (negb (pred bc)).
-    { inversion H; subst. split; [apply frame_refl; exact W|lia]. }
-    dbind H. destruct (unapply_core _ _ _ W E0) as (W1 & C1 & N1 & R1 & T1 & Hr & _).
-    destruct (IH _ _ _ _ _ _ W1 H) as (F & A).
+    { inversion H; subst. split; [apply frame_refl; exact W|split; [lia|auto]]. }
+    dbind H. destruct (unapply_core _ _ _ W E0) as (W1 & C1 & N1 & R1 & T1 & Hr & (e1 & He1 & _ & Hpa)).
+    destruct (IH _ _ _ _ _ _ W1 H) as (F & A & IA).
     assert (S1 : same_static (cores s) (cores a)) by (rewrite C1; apply same_static_cupd).
-    split.
+    pose proof (wf_parent_height _ _ _ W (find_cfind _ _ _ Fc) Hr) as Hh. cbn in Hh.
+    change (e_par (core bc)) with (b_par ccmd bc) in Hh.
+    rewrite (find_cfind _ _ _ Fc) in He1. inversion He1; subst e1. change (e_par (core bc)) with (b_par ccmd bc) in Hpa.
+    split; [|split].
     + eapply frame_trans; [|exact F]. constructor; assumption.
-    + rewrite !(hgt_static _ _ _ S1) in A.
-      pose proof (wf_parent_height _ _ _ W (find_cfind _ _ _ Fc) Hr) as Hh. cbn in Hh.
-      change (e_par (core bc)) with (b_par ccmd bc) in Hh. lia.
+    + rewrite !(hgt_static _ _ _ S1) in A. lia.
+    + intros _. apply IA. rewrite C1. apply is_act_cupd_other; [exact Hpa|right]. intro Heq. rewrite Heq in Hh. lia.
 Qed.
 
 Lemma unapply_arith : forall s a b s',
     wf s -> unapply pstate ccmd cunexec s a b = Ok s' ->
-    frame s s' /\ Z.of_N (napp _ _ s) = Z.of_N (napp _ _ s') + (hgt (cores s) a - hgt (cores s) b).
+    frame s s' /\ Z.of_N (napp _ _ s) = Z.of_N (napp _ _ s') + (hgt (cores s) a - hgt (cores s) b) /\
+    (is_act (cores s) a -> is_act (cores s') b).
 Proof.
   intros s a b s' W H. unfold unapply in H. dbind H. destruct a0 as [s1 w]. cbn in H.
   destruct (N.eqb w b) eqn:Ew; inversion H; subst. apply N.eqb_eq in Ew. subst.
@@ -364,13 +377,6 @@ Proof.
   destruct (cfind l' x) as [e'|]; cbn in S; [|discriminate]. inversion S. exists e'. split; [reflexivity|congruence].
 Qed.
 
-Lemma is_act_cupd_other : forall l i v j, is_act l j -> (v = true \/ j <> i) -> is_act (cupd l i v) j.
-Proof.
-  intros l i v j (e & He & Ha) Hv. exists (setact i v e). rewrite cfind_cupd', He. split; [reflexivity|].
-  unfold setact. destruct (N.eqb (e_id e) i) eqn:E; [|exact Ha].
-  destruct Hv as [->|Hn]; [reflexivity|]. apply N.eqb_eq in E. apply cfind_some in He. destruct He. congruence.
-Qed.
-
 Lemma last_cons_default : forall (l : list N) y d d', last (y :: l) d = last (y :: l) d'.
 Proof. induction l as [|z r IH]; intros y d d'; [reflexivity|]. change (last (z :: r) d = last (z :: r) d'). apply IH. Qed.
 
@@ -380,7 +386,8 @@ Lemma ap_arith : forall path s from s' ok cur,
     (ok = true -> Z.of_N (napp _ _ s') = Z.of_N (napp _ _ s) + Z.of_nat (length path) /\
                   (path <> [] -> is_act (cores s') (last path cur)) /\
                   (forall j, is_act (cores s) j -> is_act (cores s') j)) /\
-    (ok = false -> Z.of_N (napp _ _ s) = Z.of_N (napp _ _ s') + (hgt (cores s) cur - hgt (cores s) from)).
+    (ok = false -> Z.of_N (napp _ _ s) = Z.of_N (napp _ _ s') + (hgt (cores s) cur - hgt (cores s) from) /\
+                   (is_act (cores s) cur -> is_act (cores s') from)).
 Proof.
   induction path as [|x r IH]; intros s from s' ok cur W L H; cbn in H.
   - inversion H; subst. split; [apply frame_refl; exact W|]. split; [|discriminate].
@@ -397,7 +404,11 @@ Proof.
            cbn. apply C. rewrite C1. exists (setact x true e0). rewrite cfind_cupd', He0. split; [reflexivity|].
            unfold setact. apply cfind_some in He0. destruct He0 as [Hid _]. rewrite Hid, N.eqb_refl. reflexivity.
         -- intros j Hj. apply C. rewrite C1. apply is_act_cupd_other; [exact Hj|left; reflexivity].
-      * intros Hok. specialize (Hf Hok). rewrite !(hgt_static _ _ _ S1) in Hf.
+      * intros Hok. destruct (Hf Hok) as [Hf1 Hf2]. rewrite !(hgt_static _ _ _ S1) in Hf1.
+        assert (Hxa : is_act (cores s1) x).
+        { rewrite C1. exists (setact x true e0). rewrite cfind_cupd', He0. split; [reflexivity|].
+          unfold setact. apply cfind_some in He0. destruct He0 as [Hid _]. rewrite Hid, N.eqb_refl. reflexivity. }
+        split; [|intros _; exact (Hf2 Hxa)].
         assert (Hxr : x <> root _ _ s).
         { intro. subst x. unfold c_applyBlock, applyBlock in E.
           destruct (find ccmd (blocks pstate ccmd s) (root pstate ccmd s)); [|discriminate].
@@ -407,11 +418,11 @@ Proof.
       assert (W1 : wf s1) by (unfold wf; rewrite C1, R1, N1; exact W).
       destruct (find ccmd (blocks pstate ccmd s1) x) as [bx|] eqn:Fx; [|discriminate].
       dbind H. inversion H; subst s' ok; clear H. subst cur.
-      destruct (unapply_arith _ _ _ _ W1 E0) as (F & A).
+      destruct (unapply_arith _ _ _ _ W1 E0) as (F & A & IA).
       assert (F1 : frame s s1) by (constructor; [exact W1|rewrite C1; apply same_static_refl|exact R1|exact T1]).
       split; [eapply frame_trans; eassumption|]. split; [discriminate|]. intros _.
       pose proof (find_cfind _ _ _ Fx) as Hx. rewrite C1, He in Hx. inversion Hx; subst e.
-      change (e_par (core bx)) with (b_par ccmd bx). rewrite C1, N1 in A. exact A.
+      change (e_par (core bx)) with (b_par ccmd bx). rewrite C1, N1 in A. rewrite C1 in IA. split; [exact A|exact IA].
 Qed.
 
 (** ** apply (range) *)
@@ -470,7 +481,7 @@ Lemma apply_arith : forall s a b s' ok,
     (ok = true -> Z.of_N (napp _ _ s') = Z.of_N (napp _ _ s) + (hgt (cores s) b - hgt (cores s) a) /\
                   (a <> b -> is_act (cores s') b) /\
                   (forall j, is_act (cores s) j -> is_act (cores s') j)) /\
-    (ok = false -> napp _ _ s' = napp _ _ s).
+    (ok = false -> napp _ _ s' = napp _ _ s /\ (is_act (cores s) a -> is_act (cores s') a)).
 Proof.
   intros s a b s' ok W H. unfold apply in H.
   destruct (N.eqb a b) eqn:Eab.
@@ -480,7 +491,7 @@ Proof.
   destruct (find ccmd (blocks pstate ccmd s) a) as [bf|] eqn:Fa; [|discriminate].
   destruct (find ccmd (blocks pstate ccmd s) b) as [bt|] eqn:Fb; [|discriminate].
   destruct (is_failed ccmd bt).
-  { inversion H; subst. split; [apply frame_refl; exact W|]. split; [discriminate|reflexivity]. }
+  { inversion H; subst. split; [apply frame_refl; exact W|]. split; [discriminate|]. intros _. split; [reflexivity|auto]. }
   destruct (negb (Z.ltb (b_h ccmd bf) (b_h ccmd bt))) eqn:Hlt; [discriminate|].
   apply negb_false_iff in Hlt. apply Z.ltb_lt in Hlt.
   destruct (path_up ccmd (blocks pstate ccmd s) _ b) as [up|] eqn:Eup; [|discriminate].
@@ -502,5 +513,5 @@ Proof.
       rewrite H0, Hlen in A. rewrite A.
       unfold hgt. rewrite (find_cfind _ _ _ Fa), (find_cfind _ _ _ Fb). cbn. rewrite Z2Nat.id by lia. reflexivity.
     + intros _. rewrite <- Lb. apply B. discriminate.
-  - intros Hok. specialize (Hf Hok). lia.
+  - intros Hok. destruct (Hf Hok) as [Hf1 Hf2]. split; [lia|exact Hf2].
 Qed.
